@@ -31,6 +31,10 @@ intEnumValues = {
 }
 
 
+# intc/bytec address their block with a uint8 immediate: only the first 256 entries are reachable
+MAX_BLOCK_ENTRIES = 256
+
+
 def extractIntValue(op: TealOp) -> Union[str, int]:
     """Extract the constant value being loaded by a TealOp whose op is Op.int.
 
@@ -159,13 +163,13 @@ def createConstantBlocks(ops: List[TealComponent]) -> List[TealComponent]:
         val
         for i, val in enumerate(sortedInts)
         if intFreqs[val] > 1 and (i < 4 or isinstance(val, str) or val >= 2**7)
-    ]
+    ][:MAX_BLOCK_ENTRIES]
 
     byteBlock = [
         ("0x" + b.hex()) if type(b) is bytes else cast(str, b)
         for b in sortedBytes
         if byteFreqs[b] > 1
-    ]
+    ][:MAX_BLOCK_ENTRIES]
 
     if len(intBlock) != 0:
         assembled.append(TealOp(None, Op.intcblock, *intBlock))
@@ -214,7 +218,10 @@ def createConstantBlocks(ops: List[TealComponent]) -> List[TealComponent]:
                         "Expect a byte-like constant opcode, get {}".format(op)
                     )
 
-                if byteFreqs[byteValue] == 1:
+                if (
+                    byteFreqs[byteValue] == 1
+                    or sortedBytes.index(byteValue) >= MAX_BLOCK_ENTRIES
+                ):
                     encodedValue = (
                         ("0x" + byteValue.hex())
                         if type(byteValue) is bytes
